@@ -202,8 +202,19 @@ structure Enum (κ ν : Type) where
   rest : List (Entry κ ν)            -- the chain starting at m_NextEntry
   cur : Option (Entry κ ν)           -- m_CurrentEntry
 
-/-- `set_enum::operator=(set&)` -/
+/-- `set_enum::set_enum(set&)` (`*this = set` on a fresh object) -/
 def enumStart (s : State κ ν) : Enum κ ν := { idx := s.tableLength, rest := [], cur := none }
+
+/-- `set_enum::set_enum()`: bound to no set, `m_Index = 0`, no current / prefetched entry -/
+def enumDefault : Enum κ ν := { idx := 0, rest := [], cur := none }
+
+/-- `set_enum::operator=(set&)` on an EXISTING enumerator `e` — bound to this set, to another one or to
+    none; fresh, in the middle of a collision chain (`e.rest ≠ []`: a prefetched `m_NextEntry`) or at its
+    end — statement by statement:
+    `m_Set = &set; m_Index = m_Set->tableLength; m_CurrentEntry = nullptr; m_NextEntry = nullptr;`
+    (`map_enum::operator=(map&)` is `m_Set_Enum = map.m_set`).  `m_Set` is the `s` later calls are given. -/
+def enumRebind (s : State κ ν) (e : Enum κ ν) : Enum κ ν :=
+  { e with idx := s.tableLength, cur := none, rest := [] }
 
 /-- `while (1) { if (!m_Index) break; m_Index--; m_NextEntry = table[m_Index]; if (m_NextEntry) break; }` -/
 def advance (s : State κ ν) : Nat → Nat × List (Entry κ ν)
